@@ -13,8 +13,9 @@ import (
 )
 
 // c10reset: pooled structs are fully cleared before they go back to the pool.
-func c10reset(c *core.Ctx) {
-	const R = "C10.reset"
+func c10reset(c *core.Ctx) { c10resetAs(c, "C10.reset") }
+
+func c10resetAs(c *core.Ctx, R string) {
 	c.Rule(R, "for every struct taken from a sync.Pool (`pool.Get().(*T)`): the statement right after the Get is a `defer` that calls a method of the value and then Put (so both run on panic exits too), and that method assigns every field of T (field coverage): a field that survives in the pool leaks state of a previous, possibly failed, load into the next one")
 	c.Floor(R, 10)
 	nUsers := 0
